@@ -38,8 +38,26 @@ def main(argv=None):
                     choices=['quick', 'thorough'])
     ap.add_argument('--only', default=None)
     ap.add_argument('--no-selftest', action='store_true')
+    ap.add_argument('--replay', default=None,
+                    help='replay file of a reported finding: re-decide that single rule instance on the current tree')
     args = ap.parse_args(argv)
     prop = args.prop.upper()
+    if args.replay:
+        import json
+        with open(args.replay) as fh:
+            rp = json.load(fh)
+        try:
+            mod, model, ctx, summary = run_property(rp['property'], 'thorough', {rp['rule']})
+        except AnalysisError as exc:
+            print(f'ANALYSIS-ERROR {exc}')
+            return 2
+        hit = [f for f in ctx.findings if f.key == rp['key']]
+        if hit:
+            print(f'REPRODUCED {rp["key"]}\n  at {hit[0].loc}\n  {hit[0].msg}')
+            print(f'VIOLATION property={rp["property"]} replay={args.replay}')
+            return 1
+        print(f'NOT REPRODUCED on the current tree: {rp["key"]}')
+        return 0
     seed = int(os.environ.get('VERIF_SEED', '0') or 0)
     only = set(args.only.split(',')) if args.only else None
     t0 = time.time()
